@@ -114,7 +114,7 @@ def run(ctx):
     ctx.extra["rule"] = ("seeded random tensors of rank 1-4, non-square, slices drawn from 8 row classes with ranges spread over 6 decades; AbsmaxOptimizer via quantize_weight (3 qtypes, axis 0/-1), "
                          "absmax_scale (3 qtypes, axis None/0/-1), MaxOptimizer (bits 2/4, groups); metamorphic triples (perturb/rescale/permute other slices). "
                          "distinct = (site,F,Q,axis,shape,data hash); non-trivial = non-square or non-'mixed' row class or metamorphic case")
-    n = 400 if not ctx.thorough else 5000
+    n = 400 if not ctx.thorough else 20000
     lines, expect, meta = [], [], []
     spec_lines, spec_meta = [], []
     for i in range(n):
